@@ -98,6 +98,54 @@ def h_step(E, N, C, state, opi):
     return cl
 
 
+def h_step_layer(E, order, opi):
+    """State SGL with a 30-hit group that went through the mixture model (constructed Inv_G state + real metarize + find_layers)."""
+    from models import stubs
+    stubs.OPTIONS['gmm'] = pipeline.gmm_stub
+    op = OPS[opi]
+    n = len(pipeline.FILL_H)
+    hs = list(pipeline.FILL_H)
+    ds = [-15.0 * (n - 1 - i) for i in range(n)]
+    if order == 'desc':
+        hs, ds = hs[::-1], ds[::-1]
+    sep = E.real('min_sep')
+    E.assume(sep > 0)
+
+    def make():
+        prms = default_prms()
+        prms.update(MSA=None, MIN_SEP_VALS=[sep], MIN_SEP_LIMS=[])
+        data = frame({'ceilo': ['a'] * n, 'dt': list(ds), 'height': list(hs), 'type': [1] * n, 'slice_id': [0] * n, 'group_id': [0] * n})
+        c = new_chunk(data, prms)
+        with WarningLog():
+            c.metarize('slices')
+            c.metarize('groups')
+            c.find_layers()
+        return c
+    canon = snapshot(make())
+    ch = make()
+    before = snapshot(ch)
+    with WarningLog():
+        kind, res = _apply(ch, op)
+    after = snapshot(ch)
+    nc = int(col(ch.groups, 'ncomp')[0]) if ch.groups is not None and len(ch.groups) else 0
+    E.cover('group examined and not split', nc == 1)
+    E.cover('group split', nc > 1)
+    E.cover('refused', kind == 'AmpycloudError')
+    E.cover('accepted', kind == 'ok')
+    d7 = op in ('find_slices', 'metarize:slices')
+    cl = [('AmpycloudError or success, no other exception', kind in ('ok', 'AmpycloudError'))]
+    if op in ('find_slices',):
+        return cl[:0] + [('not applicable to a constructed state', True)]
+    if kind == 'AmpycloudError':
+        cl.append(('a refused call leaves tables, per-hit assignments and messages intact', _same(before, after)))
+    elif kind == 'ok':
+        cl.append(('an accepted call leaves the canonical layered state (idempotent; no result lost)', _same(after, canon, skip_isolated=d7)))
+        if op.startswith('metar_msg'):
+            w = op.split(':')[1] if ':' in op else 'layers'
+            cl.append(('the returned message is the canonical one', isinstance(res, str) and same_code(res, canon['msg_' + w])))
+    return cl
+
+
 def _sizes(ncs):
     return [(n, c, s, o) for (n, c) in ncs for s in range(4) for o in range(len(OPS))]
 
@@ -108,5 +156,9 @@ HARNESSES = [
       assumptions=['utils.check_data_consistency replaced by a stand-in on the accepted table (C15); hit type fixed to 1'],
       doc='one operation from each canonical state: AmpycloudError + unchanged, or canonical state of the same inputs; by '
           'induction every call sequence stays inside the canonical states'),
+    H('H-step-layer', h_step_layer, quick=[('asc', o) for o in (1, 2, 4, 5)], thorough=[(r, o) for r in ('asc', 'desc') for o in range(1, len(OPS))],
+      float_model='R', cover=['group examined and not split', 'group split', 'refused', 'accepted'], scripted=True,
+      assumptions=['layered state with a 30-hit group constructed directly (Inv_G + real metarize + real find_layers); mixture stub as in C05'],
+      doc='operations applied to a layered state whose group went through the mixture model (ncomp >= 1): refused + unchanged, or idempotent'),
 ]
 get_harness = make_get(HARNESSES)
